@@ -14,6 +14,11 @@ LEVEL = "proof"
 THEOREMS = ["content_preserved", "only_trailing_ws_trimmed", "ifbreak_only_separator", "output_eq_leaves_mod_commas",
             "ifbreak_only_separator_needs_side_condition"]
 LAYOUT_OK = "reparse=ok tokens=ok comments=ok"
+# `Formatter::format` renders with strip_trailing_whitespace over the WHOLE text, so blanks at line ends inside
+# embedded foreign code (`embed (…) lang{{{ … }}}`: one multi-line token) are trimmed too — a token text changes.
+# Verified per case by the harness: every differing token is multi-line and equal once line ends are trimmed.
+KEY_EMBED = "render:strip_trailing_whitespace:inside-embed-content"
+SIG_EMBED = "reparse=ok tokens=BAD:embed-trailing-ws comments=ok"
 
 
 def process(ctx, res, label, budget):
@@ -37,6 +42,10 @@ def process(ctx, res, label, budget):
         elif k == "layout":
             ctx.distinct(op)
             if i != o:
+                key = KEY_EMBED if i == SIG_EMBED else None
+                if key and listed(ctx, key):
+                    ctx.violation("", "", key=key, kind="impl!=oracle")
+                    continue
                 if budget[1] > 0:
                     budget[1] -= 1
                     parts = op.split(" ")
@@ -45,7 +54,7 @@ def process(ctx, res, label, budget):
                                   f"source {len(src or '')} chars)",
                                   {"kind": "impl!=oracle", "domain": "fmt", "ops": [op], "impl": i, "oracle": o,
                                    "source_text": src, "seed": ctx.seed,
-                                   "replay": f"{HX} fmt --replay <file with the op> --out DIR"}, kind="impl!=oracle")
+                                   "replay": f"{HX} fmt --replay <file with the op> --out DIR"}, key=key, kind="impl!=oracle")
                 else:
                     ctx.cov["failures"]["impl!=oracle"] += 1
 
